@@ -5,13 +5,16 @@
 (* Specification variable                                                   *)
 (*   abs         set of <<id, content>> -- the map the user is promised     *)
 (* Implementation-shaped variables (what the library keeps)                 *)
-(*   tileById    set of <<id, kind, content>>, kind "mem" (content held in  *)
-(*               memory under its hash) or "back" (offset/length in the     *)
-(*               reader the archive was opened from; modelled by the bytes  *)
-(*               found there)                                               *)
-(*   dataByHash  set of contents retained in memory (hash = content: the    *)
-(*               64-bit content hash is assumed injective)                  *)
-(*   idsByHash   set of <<content, id>>: the reference sets                 *)
+(*   tileById    set of <<id, kind, x>>: kind "mem" with x = hash of the    *)
+(*               content (held in memory under that hash) or kind "back"    *)
+(*               with x = the bytes found at its offset/length in the       *)
+(*               reader the archive was opened from                         *)
+(*   dataByHash  set of <<hash, content>>, one pair per hash (a later       *)
+(*               insert under the same hash replaces the content)           *)
+(*   idsByHash   set of <<hash, id>>: the reference sets                    *)
+(* The properties hold when Hash is injective on the contents in use (the   *)
+(* instances use the identity); MC_Store_collision.cfg runs a colliding     *)
+(* hash and shows Refines failing -- the assumption is necessary.           *)
 (*   reply       what the last call returned                                *)
 (* Contents are opaque values; "" / the empty value is the constant Empty.  *)
 (* One action per public call; a refused call is the separate action        *)
@@ -19,7 +22,8 @@
 (***************************************************************************)
 EXTENDS Integers, Sequences, FiniteSets
 
-CONSTANT Empty                      \* the empty content
+CONSTANTS Empty,                    \* the empty content
+          Hash(_)                   \* the content hash the builder keys its maps by
 
 VARIABLES abs, tileById, dataByHash, idsByHash, reply
 storeVars == <<abs, tileById, dataByHash, idsByHash>>
@@ -51,14 +55,14 @@ Unbind(t, d, r, id) ==
        IF x[2] = "back" THEN [t |-> t \ {x}, d |-> d, r |-> r]
        ELSE LET r2 == r \ {<<x[3], id>>}
                 still == \E q \in r2 : q[1] = x[3]
-            IN [t |-> t \ {x}, d |-> IF still THEN d ELSE d \ {x[3]}, r |-> r2]
+            IN [t |-> t \ {x}, d |-> IF still THEN d ELSE {p \in d : p[1] # x[3]}, r |-> r2]
 
 AddTile(id, c) ==
   /\ c # Empty
-  /\ LET u == Unbind(tileById, dataByHash, idsByHash, id) IN
-       /\ tileById'   = u.t \cup {<<id, "mem", c>>}
-       /\ dataByHash' = u.d \cup {c}
-       /\ idsByHash'  = u.r \cup {<<c, id>>}
+  /\ LET u == Unbind(tileById, dataByHash, idsByHash, id)  h == Hash(c) IN
+       /\ tileById'   = u.t \cup {<<id, "mem", h>>}
+       /\ dataByHash' = {p \in u.d : p[1] # h} \cup {<<h, c>>}
+       /\ idsByHash'  = u.r \cup {<<h, id>>}
   /\ abs' = {p \in abs : p[1] # id} \cup {<<id, c>>}
   /\ reply' = Ok
 
@@ -70,8 +74,14 @@ RemoveTile(id) ==
   /\ abs' = {p \in abs : p[1] # id}
   /\ reply' = Ok
 
+\* the bytes a tile entry stands for: looked up under its hash, or read from the backing reader
+Stored(d, h) == {p \in d : p[1] = h}
+ContentOfEntry(x, d) == IF x[2] = "back" THEN x[3] ELSE (CHOOSE p \in Stored(d, x[3]) : TRUE)[2]
 GetTile(id) ==
-  /\ reply' = IF id \in IdsOf(tileById) THEN Some(EntryOf(tileById, id)[3]) ELSE None
+  /\ reply' = IF id \in IdsOf(tileById)
+              THEN LET x == EntryOf(tileById, id) IN
+                   IF x[2] = "mem" /\ Stored(dataByHash, x[3]) = {} THEN None ELSE Some(ContentOfEntry(x, dataByHash))
+              ELSE None
   /\ UNCHANGED storeVars
 
 List  == /\ reply' = [kind |-> "ids", ids |-> IdsOf(tileById)] /\ UNCHANGED storeVars
@@ -82,14 +92,17 @@ SaveReopen == OpenedFrom(abs)
 
 (* ---- properties ------------------------------------------------------------ *)
 \* C04: the implementation-shaped state refines the map
-Refines == {<<x[1], x[3]>> : x \in tileById} = abs
+Resolvable == \A x \in tileById : x[2] = "mem" => Stored(dataByHash, x[3]) # {}
+Refines == Resolvable /\ {<<x[1], ContentOfEntry(x, dataByHash)>> : x \in tileById} = abs
 FunctionalAbs == Cardinality({p[1] : p \in abs}) = Cardinality(abs)
 FunctionalT   == Cardinality(IdsOf(tileById)) = Cardinality(tileById)
 
 \* C10 (retention): exactly one copy of each content some in-memory tile refers to, and none other
-MemContents == {x[3] : x \in {y \in tileById : y[2] = "mem"}}
+MemHashes == {x[3] : x \in {y \in tileById : y[2] = "mem"}}
+MemContents == {p[2] : p \in dataByHash}
 Retention ==
-  /\ dataByHash = MemContents
+  /\ {p[1] : p \in dataByHash} = MemHashes                         \* one copy per referenced hash, none unreferenced
+  /\ Cardinality(dataByHash) = Cardinality(MemHashes)
   /\ idsByHash = {<<x[3], x[1]>> : x \in {y \in tileById : y[2] = "mem"}}
 
 \* observations agree with the map
